@@ -539,6 +539,29 @@ pub fn generate(seed: u64, focus: &str, profile: Profile) -> Scenario {
                 let ttl = *r.pick(&TTLS);
                 let flush = r.chance(1, 5);
                 let mut recs = instance_records(&svc, &fake, ttl, flush);
+                if r.chance(1, 2) {
+                    // a foreign implementation is free to use SRV priorities and weights
+                    for rec in recs.iter_mut() {
+                        if rec.rtype == t::SRV {
+                            rec.fields[0] = F::U16(r.below(4) as u16);
+                            rec.fields[1] = F::U16(r.below(4) as u16 * 7);
+                        }
+                    }
+                }
+                if matches!(focus, "C16" | "C15") && !hostile && r.chance(1, 2) {
+                    // other record types under the instance name (all wire-valid)
+                    for _ in 0..1 + r.usize_below(4) {
+                        let ty = *r.pick(&dnsgen::gen::TYPED);
+                        let mut o = vec![fake.name.as_bytes().to_vec()];
+                        o.extend(svc.iter().cloned());
+                        let pool = vec![o.clone(), svc.clone(), name_from_str("host.local")];
+                        let mut x = dnsgen::gen::record(&mut r, o, ty, &pool, &dnsgen::gen::Sizes::default());
+                        x.ttl = ttl;
+                        x.class = 1;
+                        x.cache_flush = flush;
+                        recs.push(x);
+                    }
+                }
                 if hostile {
                     for rec in recs.iter_mut() {
                         if r.chance(1, 3) {
@@ -565,12 +588,32 @@ pub fn generate(seed: u64, focus: &str, profile: Profile) -> Scenario {
                 let split = if recs.len() > 1 && r.chance(1, 3) { r.usize_below(recs.len()) } else { recs.len() };
                 m.additional = recs.split_off(split);
                 m.answers = recs;
-                let one_owner = {
-                    let mut os: Vec<&Labels> = m.answers.iter().chain(&m.additional).map(|x| &x.owner).collect();
-                    os.dedup();
-                    os.len() <= 1
-                };
-                AppOp::SendMsg { msg: m, compress: r.chance(2, 3), unicast_to: None, exact: !hostile && one_owner }
+                if r.chance(1, 3) {
+                    // stray records that no watcher of `svc` may report: another service's
+                    // instance, the service name itself, an unrelated host
+                    for _ in 0..1 + r.usize_below(2) {
+                        let owner = match r.below(3) {
+                            0 => {
+                                let mut o = vec![r.pick(&INST_NAMES).as_bytes().to_vec()];
+                                o.extend(name_from_str(*r.pick(&SERVICES)));
+                                o
+                            }
+                            1 => svc.clone(),
+                            _ => name_from_str("stray.host.local"),
+                        };
+                        let rec = match r.below(3) {
+                            0 => Rec { owner, rtype: t::A, class: 1, cache_flush: flush, ttl, fields: vec![F::U32(0x0A63_0000 + r.below(250) as u32)] },
+                            1 => Rec { owner: owner.clone(), rtype: t::SRV, class: 1, cache_flush: flush, ttl, fields: vec![F::U16(0), F::U16(0), F::U16(9000 + r.below(9) as u16), F::Name(owner, Comp::Never)] },
+                            _ => Rec { owner, rtype: t::TXT, class: 1, cache_flush: flush, ttl, fields: vec![F::Str(b"stray=1".to_vec())] },
+                        };
+                        if r.chance(1, 2) {
+                            m.additional.push(rec);
+                        } else {
+                            m.answers.push(rec);
+                        }
+                    }
+                }
+                AppOp::SendMsg { msg: m, compress: r.chance(2, 3), unicast_to: None, exact: !hostile }
             };
             script.push((at, op));
         }
